@@ -42,5 +42,9 @@ ENTRIES = [
 
 def run(ctx):
     OW.rule_F1(ctx, ENTRIES, "read-only entry points of C20")
+    # value semantics of the score / performance classes: operators, comparisons, string forms and property getters are views
+    obs = [e for e in OW.observer_entries(ctx, ["partitura.score", "partitura.performance"]) if e[0] not in {q for q, _ in ENTRIES}]
+    ctx.require(len(obs) >= 60, "F1", "observers", f"only {len(obs)} observer methods found in score / performance")
+    OW.rule_F1(ctx, obs, "observer methods (dunder operators, string forms, property getters) of partitura.score and partitura.performance")
     OW.rule_iterators(ctx)
     OW.rule_global_state(ctx, [q for q, _ in ENTRIES])
